@@ -8,3 +8,6 @@ import Gleece.Properties.C03
 #print axioms Gleece.Router.refused_no_controller
 #print axioms Gleece.IR.effective_def
 #print axioms Gleece.IR.effective_empty_iff
+#print axioms Gleece.Reduce.effective_security
+#print axioms Gleece.Reduce.default_applies
+#print axioms Gleece.Reduce.effective_empty_iff
